@@ -74,8 +74,8 @@ func loadViaExportData(o LoadOpts) (*Prog, error) {
 	cfg := &packages.Config{
 		Mode: packages.NeedName | packages.NeedFiles | packages.NeedCompiledGoFiles | packages.NeedImports |
 			packages.NeedTypes | packages.NeedSyntax | packages.NeedTypesInfo | packages.NeedTypesSizes | packages.NeedModule,
-		Dir:     o.RepoDir,
-		Env:     env,
+		Dir: o.RepoDir,
+		Env: env,
 	}
 	if o.Tags != "" {
 		cfg.BuildFlags = []string{"-tags=" + o.Tags}
